@@ -48,14 +48,14 @@ Fixpoint mul_zip (s v : list Z) : list Z :=
   | x :: s', y :: v' => x * y :: mul_zip s' v'
   | _, _ => []
   end.
-Definition bm_forbid (off n m i j : Z) : option (list Z) :=     (* None: ValueError *)
+Definition vmap_forbid (off n m i j : Z) : option (list Z) :=     (* None: ValueError *)
   if j >=? 2 ^ bitlength m then None
   else match znth j (flips (bitlength m)) with
        | Some sg => Some (mul_zip sg (pattern_ids off (BinMap n m) [Some i; None]))
        | None => None
        end.
 Definition forbid_cl (off n m i j : Z) : list Z :=
-  match bm_forbid off n m i j with Some c => c | None => [] end.
+  match vmap_forbid off n m i j with Some c => c | None => [] end.
 
 (* ---------- the five constraints ---------- *)
 Definition vm_force_complete (off : Z) (mp : mapping) : list ir :=
